@@ -44,7 +44,10 @@ check("C02",
 check("C03",
       "TLC takes the specification's own SolveOrder action (dense, unoptimised, explicit H_0 products) once per "
       "multi-order and requires the logged U, U-dagger, H_tilde to equal it exactly, plus the gauge clause on the logged "
-      "U. Mode A shows the reference satisfies the defining equations on the whole small configuration space.",
+      "U. Mode A shows the reference satisfies the defining equations on the whole small configuration space, and "
+      "MC_Unique.tla decides the uniqueness claim itself: over GF(3^2), for every block structure / degeneracy pattern / "
+      "fully_diagonalize form and EVERY candidate matrix, the homogeneous defining equations (unitarity, elimination, "
+      "gauge) have only the zero solution iff the structure is well posed, and the gauge equation is never redundant.",
       HOM, "TLA+ reference solver as trace-validation oracle (TLC)", "DESIGN.md §4 C03")
 check("C04",
       "TLC computes, by Faddeev-LeVerrier over truncated power series in GF(p^2), the characteristic polynomial of the "
